@@ -138,12 +138,11 @@ def literalLoop (rs : RStr) (lit s : Bytes) : Nat → Int → Int → Option (Op
     if r > e then some none else
     let ri := r.toNat
     let len := lit.length
-    -- wbeg: `r > s && (isword(r - 1) || !isword(r))`
-    let skipB := rs.wbeg && ri > 0 && (isWordB (s.getD (ri - 1) 0) || !isWordB (s.getD ri 0))
+    -- wbeg: `(r > s && isword(r - 1)) || !isword(r)`
+    let skipB := rs.wbeg && ((ri > 0 && isWordB (s.getD (ri - 1) 0)) || !isWordB (s.getD ri 0))
     if skipB then literalLoop rs lit s f (r + 1) e else
-    -- wend: `r[len] && (!isword(r + len - 1) || isword(r + len))`; r + len - 1 may be before the string
-    if rs.wend && s.getD (ri + len) 0 != 0 && ri + len = 0 then none else
-    let skipE := rs.wend && s.getD (ri + len) 0 != 0 && (!isWordB (s.getD (ri + len - 1) 0) || isWordB (s.getD (ri + len) 0))
+    -- wend: `r + len == s || !isword(r + len - 1) || (r[len] && isword(r + len))`
+    let skipE := rs.wend && (ri + len = 0 || !isWordB (s.getD (ri + len - 1) 0) || (s.getD (ri + len) 0 != 0 && isWordB (s.getD (ri + len) 0)))
     if skipE then literalLoop rs lit s f (r + 1) e else
     if matchCase (s.drop ri) lit rs.icase then some (some ri) else literalLoop rs lit s f (r + 1) e
 
@@ -153,7 +152,7 @@ def rstrFind (rs : RStr) (s : Bytes) (n : Nat) (flg : Nat) (nd ngrps : Nat) : Op
   | some r => find r s n flg nd ngrps
   | none =>
     let lit := rs.str.getD []
-    if (rs.lbeg && flg &&& RE_NOTBOL != 0) || (rs.lend && flg &&& RE_NOTEOL != 0) then some (-1, [], 0) else
+    if rs.lbeg && flg &&& RE_NOTBOL != 0 then some (-1, [], 0) else
     let len := lit.length
     let e : Int := (s.length : Int) - len - 1
     if e < 0 then some (-1, [], 0) else
@@ -162,6 +161,6 @@ def rstrFind (rs : RStr) (s : Bytes) (n : Nat) (flg : Nat) (nd ngrps : Nat) : Op
     match literalLoop rs lit s (s.length + 2) b e with
     | none => none
     | some none => some (-1, [], 0)
-    | some (some r) => some (0, if n ≥ 1 then [(r : Int), (r + len : Nat)] else [], 0)
+    | some (some r) => some (0, (if n ≥ 1 then [(r : Int), (r + len : Nat)] else []) ++ List.replicate (2 * (n - 1)) (-1), 0)
 
 end Neatvi.Rset
